@@ -155,7 +155,7 @@ func (r *runOnceFileRecord) Size() int64 {
 	r.sizeOnce.Do(func() {
 		r.size = r.record.Size()
 	})
-	if atomic.LoadInt64(&r.dataDone) > 0 {
+	if atomic.LoadInt64(&r.dataDone) > 0 && r.data != nil { // data is nil when loading it failed
 		return int64(r.data.Len())
 	}
 	return r.size
